@@ -17,13 +17,17 @@ import (
 // C14 — attestations and reports act only on a quorum of the providers named on the form.
 type C14 struct {
 	Size, Min int64
+	Extra     bool // adds a second pair of forms, a restart of the module, and a provider (Q6) that can lose its only proof
 }
 
 var c14File = mkFile(seqBytes(12, 7), 4)
 
 // V is the prover the forms are about. Q1 shares V's domain (never eligible), Q2..Q4 are registered and hold a
 // proof, Q5 is registered but holds nothing, S holds a proof but is not a registered provider.
-var c14Signers = []string{"Q1", "Q2", "Q3", "Q4", "Q5", "V", "S"}
+var c14Signers = []string{"Q1", "Q2", "Q3", "Q4", "Q5", "V", "S", "Q6"}
+
+// Q6 is registered and its only proof is on a second file, which the owner can delete: then it holds nothing
+var c14File2 = mkFile(seqBytes(12, 8), 4)
 
 type c14Model struct {
 	Blocks             int
@@ -32,18 +36,24 @@ type c14Model struct {
 	AttSigned          []string
 	RepNamed           []string
 	RepSigned          []string
-	AttForms, RepForms int // forms created so far (bounded)
+	AttForms, RepForms int  // forms created so far (bounded)
 	Second             bool // a second pair of forms (about Q1) has been requested
 	Restarted          bool // the storage module has been restarted from its exported genesis
+	F2Deleted          bool // the second file (Q6's only proof) has been deleted by its owner
 }
 
 func (m c14Model) Key() []byte { return jkey(m) }
 
-func (s C14) ID() string   { return "C14" }
-func (s C14) Name() string { return fmt.Sprintf("C14/forms-size%d-min%d", s.Size, s.Min) }
+func (s C14) ID() string { return "C14" }
+func (s C14) Name() string {
+	if s.Extra {
+		return fmt.Sprintf("C14/forms-size%d-min%d-extra", s.Size, s.Min)
+	}
+	return fmt.Sprintf("C14/forms-size%d-min%d", s.Size, s.Min)
+}
 func (s C14) Config() world.Config {
 	return world.Config{
-		Accounts: []string{"U", "V", "Q1", "Q2", "Q3", "Q4", "Q5", "S"},
+		Accounts: []string{"U", "V", "Q1", "Q2", "Q3", "Q4", "Q5", "S", "Q6"},
 		Storage: func(p *storagetypes.Params) {
 			p.ChunkSize, p.ProofWindow, p.CheckWindow = 4, 50, 100
 			p.AttestFormSize, p.AttestMinToPass = s.Size, s.Min
@@ -55,8 +65,12 @@ func (s C14) Stores() []string { return []string{"storage"} }
 
 func (s C14) Init(env world.Env) mc.Model {
 	w := env.W()
-	domains := map[string]string{"V": "https://a.shared.com:3333", "Q1": "https://b.shared.com", "Q2": "https://n.two.com:26657", "Q3": "https://n.three.com", "Q4": "https://n.four.org", "Q5": "https://n.five.net"}
-	for _, p := range []string{"V", "Q1", "Q2", "Q3", "Q4", "Q5"} {
+	domains := map[string]string{"V": "https://a.shared.com:3333", "Q1": "https://b.shared.com", "Q2": "https://n.two.com:26657", "Q3": "https://n.three.com", "Q4": "https://n.four.org", "Q5": "https://n.five.net", "Q6": "https://n.six.io"}
+	regs := []string{"V", "Q1", "Q2", "Q3", "Q4", "Q5"}
+	if s.Extra {
+		regs = append(regs, "Q6")
+	}
+	for _, p := range regs {
 		mustOK(env.Deliver(storagetypes.NewMsgInitProvider(w.A(p).Bech, domains[p], 1_000_000_000, "kb")), "InitProvider")
 	}
 	u := w.A("U").Bech
@@ -66,6 +80,13 @@ func (s C14) Init(env world.Env) mc.Model {
 	for _, p := range []string{"V", "Q1", "Q2", "Q3", "Q4", "S"} {
 		item, hl := c14File.proofFor(0)
 		if ok, e := postProofOK(w, env.Deliver(storagetypes.NewMsgPostProof(w.A(p).Bech, c14File.merkle, u, start, item, hl, 0))); !ok {
+			panic("setup: " + e)
+		}
+	}
+	if s.Extra {
+		mustOK(env.Deliver(storagetypes.NewMsgPostFile(u, c14File2.merkle, 12, 0, 0, 1, "{}")), "PostFile 2")
+		item, hl := c14File2.proofFor(0)
+		if ok, e := postProofOK(w, env.Deliver(storagetypes.NewMsgPostProof(w.A("Q6").Bech, c14File2.merkle, u, start, item, hl, 0))); !ok {
 			panic("setup: " + e)
 		}
 	}
@@ -81,18 +102,31 @@ func (s C14) Events(env world.Env, mm mc.Model) []string {
 	if m.RepForms < 2 {
 		evs = append(evs, "RepReq:U:V")
 	}
-	for _, x := range c14Signers {
+	signers := c14Signers
+	if !s.Extra {
+		signers = signers[:len(signers)-1] // Q6 exists in the extra variant only
+	}
+	for _, x := range signers {
 		evs = append(evs, "Attest:"+x+":V")
 	}
-	for _, x := range c14Signers {
+	for _, x := range signers {
 		evs = append(evs, "Report:"+x+":V")
 	}
 	evs = append(evs, "Attest:Q2:Q3", "Report:Q2:Q3") // forms that were never requested
+	if !s.Extra {
+		if m.Blocks < 2 {
+			evs = append(evs, "NextBlock")
+		}
+		return evs
+	}
 	if !m.Second {
 		evs = append(evs, "Forms2") // Q1 requests an attestation form about itself and U a report form about Q1
 	}
 	if !m.Restarted {
 		evs = append(evs, "Restart") // the storage module restarts from its own exported genesis
+	}
+	if !m.F2Deleted {
+		evs = append(evs, "DeleteF2") // the owner deletes the second file: Q6 no longer holds any proof
 	}
 	if m.Blocks < 2 {
 		evs = append(evs, "NextBlock")
@@ -122,6 +156,9 @@ func (s C14) Apply(env world.Env, mm mc.Model, ev string) mc.Step {
 	v := w.A("V").Bech
 	eligible := []string{"Q2", "Q3", "Q4"}           // registered, hold a proof, not in the prover's domain, not the prover
 	holders := []string{"V", "Q1", "Q2", "Q3", "Q4"} // registered providers that hold a proof
+	if s.Extra && !m.F2Deleted {
+		holders = append(holders, "Q6")
+	}
 
 	checkNames := func(kind string, names []string) []string {
 		var out []string
@@ -146,6 +183,13 @@ func (s C14) Apply(env world.Env, mm mc.Model, ev string) mc.Step {
 		}
 		m.Blocks++
 		st.Outcome = "block"
+	case "DeleteF2":
+		if env.Deliver(storagetypes.NewMsgDeleteFile(u, c14File2.merkle, m.Start)).OK() {
+			st.Outcome = "ok"
+			m.F2Deleted = true
+		} else {
+			panic("harness: the owner could not delete its own second file")
+		}
 	case "Forms2":
 		q1 := w.A("Q1").Bech
 		r1 := env.Deliver(storagetypes.NewMsgRequestAttestationForm(q1, c14File.merkle, u, m.Start))
@@ -268,12 +312,17 @@ func init() {
 	for _, sm := range c14Settings {
 		regScenario(C14{Size: sm[0], Min: sm[1]})
 	}
+	regScenario(C14{Size: 3, Min: 2, Extra: true})
+	regScenario(C14{Size: 2, Min: 2, Extra: true})
 	Props["C14"] = Prop{Level: "model_checking", Run: func(r *mc.Run, tier string) {
 		r.Rules = append(r.Rules, "for each (form size, minimum) in {(1,1),(2,1),(2,2),(3,2),(3,3),(3,0)}: BFS over request-attestation, request-report, Attest and Report by every account in {same-domain provider, 3 eligible providers, registered provider without proofs, the prover itself, unregistered proof holder} incl. repeats and never-requested forms, NextBlock (changes the shuffle); reference = set of distinct named signers per form")
 		r.Assumptions = append(r.Assumptions, "7 signers, one file, forms created at up to 3 heights", strings.TrimSpace("whether a reached quorum completes the form is counted, not enforced (the statement demands safety only)"))
 		for _, sm := range c14Settings {
 			r.AddExplore(C14{Size: sm[0], Min: sm[1]}, opts(tier, 12, 16, 15, 240, 30, 300))
 		}
+		r.Rules = append(r.Rules, "extra variant for (3,2) and (2,2): the same plus a second pair of forms about another prover, one restart of the storage module from its own exported genesis (open forms must survive byte-identically) and a provider whose only proof can disappear (the owner deletes that file) inside the block in which forms are requested")
+		r.AddExplore(C14{Size: 3, Min: 2, Extra: true}, opts(tier, 8, 11, 40, 600, 30, 300))
+		r.AddExplore(C14{Size: 2, Min: 2, Extra: true}, opts(tier, 8, 11, 40, 600, 30, 300))
 	}}
 	_ = sdk.ZeroInt
 }
